@@ -55,6 +55,8 @@ structure ScanCase where
   obs : ObsScan
   lists : Option (List ObsList) := none
   mutated : Option (List String) := none
+  /-- the cloud groups as the cloud itself holds them when the scan starts -/
+  cloud : Option (List Asg) := none
 deriving FromJson, ToJson, Repr, Inhabited
 
 structure ObsInit where
